@@ -334,7 +334,8 @@ def scribble(obj, depth=0, seen=None):
   return n
 
 
-def run_search(case, which, mods=None, interleave=None, prior_calls=None, prior_long_window=False, scribble_prior=None):
+def run_search(case, which, mods=None, interleave=None, prior_calls=None, prior_long_window=False, scribble_prior=None,
+               edit_query_results=False):
   """Runs one search on fresh objects at the client boundary.
 
   interleave: optional random.Random. When given, the data object is *shared* with a second matched-markets
@@ -368,6 +369,15 @@ def run_search(case, which, mods=None, interleave=None, prior_calls=None, prior_
   adm = util.call(lambda: set(mm.geos_within_constraints))
   rec['admitted'] = adm.value if adm.ok else None
   rec['par_before'] = snapshot_params(par)
+  rec['query_edits'] = 0
+  if edit_query_results:
+    # the caller looks at the geo-level query results first and uses the sets it was handed as scratch space
+    for op in ('geos_must_include', 'geos_too_large', 'geos_over_budget', 'geos_within_constraints'):
+      raw = util.call(getattr, mm, op)
+      if raw.ok and isinstance(raw.value, set):
+        raw.value.clear()
+        raw.value.add('__edited_by_caller__')
+        rec['query_edits'] += 1
   if prior_calls:
     # earlier searches on the SAME object (their results are discarded): the judged call must not depend on them
     for pc in prior_calls:
